@@ -81,12 +81,13 @@ def fhex(f):
     return f.hex()
 
 
-def build(spec, perm_seed=None, fresh_strings=False):
+def build(spec, perm_seed=None, fresh_strings=False, share_leaves=False):
     """Build the Python value of a spec.  perm_seed permutes insertion order of
     every dict/set/frozenset; fresh_strings builds each str at run time from
     pieces (equal but distinct objects)."""
     rnd = random.Random(perm_seed) if perm_seed is not None else None
     mutables = []
+    shared = {}   # share_leaves: equal str/bytes leaves are one and the same object
 
     def order(items):
         items = list(items)
@@ -107,9 +108,13 @@ def build(spec, perm_seed=None, fresh_strings=False):
         if t == "complex":
             return complex(_pfloat(s[1]), _pfloat(s[2]))
         if t == "str":
+            if share_leaves:
+                return shared.setdefault(("str", s[1]), "".join([c for c in s[1]]))
             return "".join([c for c in s[1]]) if fresh_strings else s[1]
         if t == "bytes":
-            return bytes.fromhex(s[1])
+            if share_leaves:
+                return shared.setdefault(("bytes", s[1]), bytes(bytearray.fromhex(s[1])))
+            return bytes(bytearray.fromhex(s[1])) if fresh_strings else bytes.fromhex(s[1])
         if t == "bytearray":
             return bytearray.fromhex(s[1])
         if t == "bytesgen":
